@@ -3,7 +3,7 @@
    (sends, uplink messages, clock changes, flushes, capacity changes); every prefix of a history is
    a history, so each theorem speaks about the state after every prefix. *)
 From Coq Require Import List NArith Bool.
-From LB Require Import Tables Framing NodeFlow NodeFlowProofs NoStrandProofs.
+From LB Require Import Tables Framing NodeFlow NodeFlowProofs NoStrandProofs BudgetSpec BudgetProofs.
 Import ListNotations.
 Local Open Scope N_scope.
 
@@ -14,6 +14,17 @@ Theorem C03_budget : forall es so now0,
   forall a, n_used (get t a) = sumsz (n_resp (get t a)) /\ n_used (get t a) <= response_limit.
 Proof. exact (fun es so now0 => tab_run_ok es [] so now0 tab_ok_nil). Qed.
 Print Assumptions C03_budget.
+
+(* The same in the property's own accounting (BudgetSpec.v, independent of the library's counter):
+   per node, the requests transmitted to it with their transmission time; an uplink message removes the
+   oldest live request if it is one of its answers; a request is live for 2 seconds. Along every history
+   with a monotone clock the worst-case response sizes of the live outstanding requests of every node sum
+   to at most the library's counter (the library only ever over-counts: lazy expiry), hence to at most 48. *)
+Theorem C03_budget_spec : forall es so now0, clock_mono now0 es = true ->
+  let '(t, now, spec) := spec_run [] so now0 es (fun _ => []) in
+  forall a, outstanding_sum now (spec a) <= n_used (get t a) /\ n_used (get t a) <= response_limit.
+Proof. exact budget_spec. Qed.
+Print Assumptions C03_budget_spec.
 
 Theorem C03_limit_is_48 : response_limit = 48 /\ expiry_secs = 2.
 Proof. exact (conj eq_refl eq_refl). Qed.
@@ -71,6 +82,13 @@ Proof. exists c03_witness. vm_compute. exists [1]. reflexivity. Qed.
 Print Assumptions C03_no_strand_event_refuted.
 
 (* non-vacuity: a history with a deferral that is released by the matching answer *)
+Example C03_budget_spec_nonvacuous :
+  let es := [FTime 1000; FSend (1,0,0) 22 [1]; FSend (1,0,0) 5 []; FTime 1001; FUp [1] 132 0; FTime 1003] in
+  clock_mono 0 es = true /\
+  let '(t, now, spec) := spec_run [] true 0 es (fun _ => []) in
+  outstanding_sum now (spec [1]) = 0 /\ n_used (get t [1]) = 32.
+Proof. vm_compute. repeat split. Qed.
+
 Example C03_nonvacuous :
   let es := [FTime 1000; FSend (1,0,0) 22 [1]; FSend (1,0,0) 23 [2]; FUp [1] 147 0] in
   let '(t, _, _, log, _) := tab_run [] true 0 es in
